@@ -194,6 +194,26 @@ def run(tier, replay_file=None):
                         report_stream(chk, m, kinds, lens, eff, f'buffered extractor returned {r}, statement says {spec}', dflt=dflt, ovr=ovr if has else None)
                 refeval.under(list(pc) + assume, lambda d: spec_stream(script0, eff, d), then, Inconclusive)
 
+    # ---- (4) the override reaches the request: lookup_route hands out the matched endpoint's own limit (router.rs), whatever
+    #          else is registered for the same path / method in other version ranges or behind a wildcard
+    from props import router_run, routerlib as RL, vermodel
+    saved = ex.models
+    ex.models = vermodel.MODELS + RL.ROUTER_MODELS + ex.models
+    try:
+        R = RL.Router(chk, ex)
+        tables = [[('PUT', '/a', 'Until'), ('PUT', '/a', 'From')], [('PUT', '/a', 'From'), ('PUT', '/a', 'Until'), ('GET', '/a', 'All')],
+                  [('PUT', '/a/{r:.*}', 'From'), ('PUT', '/a', 'Until'), ('PUT', '/a/{r:.*}', 'Until')], [('PUT', '/{x}', 'FromUntil'), ('PUT', '/{x}', 'FromUntil'), ('PUT', '/{x}/b', 'All')]]
+        n0 = len(chk.obligations)
+        for ti, spec in enumerate(tables):
+            tr = router_run.TableRun(chk, ex, R, spec, 'C11', 2, f'carried/t{ti}')
+            tr.run(list(itertools.permutations(range(len(spec)))))
+        if len(chk.obligations) - n0 < 20: raise Inconclusive('vacuity: too few lookup paths in the limit-carrying part')
+    finally:
+        ex.models = saved
+
+    # ---- (5) the multipart extractor: what it hands to the multipart parser is the body through the same cap (effective limit)
+    part_multipart(chk, ex, mk_rqctx, dflt, ovr, min(kmax, 3))
+
     # ---- informational: the overflow the assumption excludes
     script0, lens = mk_script(('data', 'data'))
     s = z3.Solver(); s.add(z3.Not(z3.BVAddNoOverflow(lens[0], lens[1], False)))
@@ -203,12 +223,96 @@ def run(tier, replay_file=None):
     return chk.finish('one obligation per (frame-script shape, execution path across polls, reference case); non-trivial = distinct name')
 
 
+def part_multipart(chk, ex, mk_rqctx, dflt, ovr, kmax):
+    import glob, os, re
+    from mirsym.core import SymStr, StrSort
+    from mirsym.runner import REPO
+    from props import c10
+    f = ex.fns
+    F = [n for n in mir.find(f, r'extractor::body::<impl at [^>]*>::from_request$', unique=False) if 'MultipartBody' in (f[n].ret or '')][0]
+    hv_ = re.search(r'name = "http"\nversion = "([^"]+)"', open(os.path.join(REPO, 'Cargo.lock')).read()).group(1)
+    for p_ in glob.glob(os.path.expanduser(f'~/.cargo/registry/src/*/http-{hv_}/src/request.rs')): ex.L.add_source(p_, only={'Parts'})
+    seen = {}
+    def m_multipart_new(ex, a, c):
+        seen['stream'] = dv(a[0])
+        return Opaque('multipart', (a[0], dv(a[1])))
+    local = [(r'^(multer::)?parse_boundary::', lambda ex, a, c: ex.ok(Opaque('boundary'))), (r'Multipart::<.*>::new::<|^multer::Multipart::new', m_multipart_new),
+             (r'Body::into_data_stream$', lambda ex, a, c: Opaque('uncapped-data-stream', dv(a[0])), True)] + [m for m in c10.MODELS if 'into_parts' in m[0]]
+    n_capped = 0
+    for kinds in shapes(kmax):
+        if 'trailers' in kinds: continue
+        for has in (False, True):
+            script0, lens = mk_script(kinds)
+            assume = no_overflow(lens)
+            eff = ovr if has else dflt
+            def h(ex):
+                Yielder.emitted = []; seen.clear()
+                body = Body(script0)
+                hm = httpmodel.HMap([('content-type', httpmodel.HV(SymStr(z3.Const('content_type_text', StrSort))))])
+                req = httpmodel.Request(headers=hm, body=body)
+                fut = ex.call_fn(F, [Ref(Cell(mk_rqctx(ex, has))), req])
+                cell = AM.pinned(fut)
+                if isinstance(cell.v, Ref): cell = cell.v.cell
+                r = AM.drive(ex, cell)
+                if r.discr != 0: return ('refused', httpmodel.status_of(ex, ex.payload(r)))
+                st = seen.get('stream')
+                if isinstance(st, Opaque) and st.tag == 'uncapped-data-stream':
+                    # the raw body: every data frame reaches the parser (and through it the handler), whatever the limit
+                    out = []
+                    for fr in script0:
+                        if fr[0] == 'error': out.append(('err', 400)); break
+                        if fr[0] == 'data': out.append(('ok', fr[1]))
+                    return ('uncapped', out)
+                for _ in range(len(script0) + 3):
+                    if AM.stream_next(ex, st) is None: break
+                else:
+                    raise Unsupported('stream did not end')
+                return ('capped', describe_emitted(ex, Yielder.emitted))
+            ex.models = local + ex.models
+            try:
+                outs = ex.explore(h, assume)
+            finally:
+                ex.models = ex.models[len(local):]
+            chk.paths += len(outs)
+            tag = f'multipart/{"-".join(kinds) or "empty"}/{"override" if has else "default"}'
+            for pc, (k, r) in outs:
+                if k != 'ok':
+                    m = chk.prove(f'{tag}/no-panic', pc, z3.BoolVal(True), extra=assume)
+                    if m is not None: chk.mismatches.append(f'MultipartBody::from_request panicked: {r}')
+                    continue
+                how, emitted = r
+                if how == 'refused':
+                    m = chk.prove(f'{tag}/not-refused-before-reading', pc, z3.BoolVal(True), extra=assume)
+                    if m is not None: chk.mismatches.append(f'MultipartBody::from_request refused a request with a usable content type: {emitted}')
+                    continue
+                if how == 'capped': n_capped += 1
+                def then(pc2, spec, emitted=emitted, how=how):
+                    same = len(spec) == len(emitted) and all(
+                        (s_[0] == 'ok' and e[0] == 'ok' and s_[1] is e[1]) or (s_[0] == 'err' and e[0] == 'err' and isinstance(e[1], int) and 400 <= e[1] <= 499)
+                        for s_, e in zip(spec, emitted))
+                    m = chk.prove(f'{tag}/parser-is-fed-the-body-through-the-limit', pc2, z3.BoolVal(not same), extra=assume,
+                                  prefer=[z3.ULE(l, 64) for l in lens] + [z3.ULE(dflt, 256), z3.ULE(ovr, 256), z3.UGE(dflt, 16), z3.UGE(ovr, 16)])
+                    if m is None: return
+                    ls, d, o = [concrete(m, l) for l in lens], concrete(m, dflt), concrete(m, ovr)
+                    if sum(ls) > 65536 or d > 65536 or (has and o > 65536):
+                        chk.mismatches.append(f'model not replayable (sizes too large): multipart {ls} default {d} override {o}'); return
+                    lim = o if has else d
+                    case = {'op': 'multipart_body', 'field_len': sum(ls), 'default': d, 'override': o if has else None}
+                    nat = replay([case])[0]
+                    bad = nat.get('seen_max', 0) > lim if nat.get('body_len', 0) > lim else nat.get('status') != 200
+                    chk.counterexample(f'MultipartBody ({how} stream): frames {ls} with limit {lim} reach the multipart parser as {emitted}, the statement says {spec}; '
+                                       f'on a real server a form field of {sum(ls)} bytes -> {nat}', case, bad, role='multipart-uncapped' if how == 'uncapped' else 'multipart')
+                refeval.under(list(pc) + assume, lambda d_: spec_stream(script0, eff, d_), then, Inconclusive)
+    chk.extra['multipart_capped_paths'] = n_capped
+
+
 def concrete(m, t):
     return m.eval(t, model_completion=True).as_long()
 
 
-def native_body(chunks, default, override, extractor='untyped'):
+def native_body(chunks, default, override, extractor='untyped', framing=None):
     case = {'op': 'body', 'chunks': chunks, 'default': default, 'override': override, 'extractor': extractor}
+    if framing: case['framing'] = framing
     return replay([case])[0], case
 
 
@@ -228,12 +332,12 @@ def report_stream(chk, m, kinds, lens, cap, what, dflt=None, ovr=None):
         return
     bad = False
     info = []
-    for ext in ('untyped', 'streaming'):
-        nat, case = native_body(ls, c, None, ext)
+    for ext, framing in (('untyped', None), ('streaming', None), ('untyped', 'content-length')):
+        nat, case = native_body(ls, c, None, ext, framing)
         tot = sum(ls)
         if tot <= c: ok = nat.get('status') == 200 and nat.get('seen') == tot
         else: ok = 400 <= nat.get('status', 0) <= 499 and nat.get('seen_max', 0) <= c
-        info.append((ext, nat))
+        info.append((ext, framing or 'chunked', nat))
         bad = bad or not ok
     chk.counterexample(f'{what}: chunks {ls} limit {c} -> native {info}', case, bad, role='stream:' + '-'.join(kinds))
 
@@ -256,6 +360,14 @@ def witnesses(chk):
                                ([20], 10, 20), ([21], 10, 20), ([8], 10, 4), ([4], 10, 4), ([0], 0, None), ([1], 0, None), ([3, 3, 3, 3], 10, 12)]:
             if ext == 'typed' and sum(chunks) < 2: continue
             cases.append({'op': 'body', 'chunks': chunks, 'default': d, 'override': o, 'extractor': ext})
+            if len(chunks) <= 2: cases.append(dict(cases[-1], framing='content-length'))
+    # the multipart extractor: the limit is on the whole body (form framing included); the handler counts the field bytes it reads
+    mp = [{'op': 'multipart_body', 'field_len': n, 'default': d, 'override': o} for n, d, o in [(10, 1024, None), (5000, 1024, None), (5000, 1024, 8000), (900, 1024, 500), (1, 40, None)]]
+    for c, r in zip(mp, replay(mp)):
+        chk.replayed += 1
+        eff = c['override'] if c['override'] is not None else c['default']
+        good = (r.get('status') == 200 and r.get('seen_max') == c['field_len']) if r.get('body_len', 0) <= eff else (400 <= r.get('status', 0) <= 499 and r.get('seen_max', 0) <= eff)
+        if not good: chk.counterexample(f'multipart extractor: field of {c["field_len"]} bytes, default {c["default"]} override {c["override"]} -> {r}', c, True, role='wire:multipart')
     res = replay(cases)
     for c, r in zip(cases, res):
         chk.replayed += 1
@@ -264,6 +376,6 @@ def witnesses(chk):
         if tot <= eff: good = r.get('status') == 200 and r.get('seen') == tot
         else: good = 400 <= r.get('status', 0) <= 499 and r.get('seen_max', 0) <= eff
         if not good:
-            chk.counterexample(f'{c["extractor"]} extractor: chunks {c["chunks"]} default {c["default"]} override {c["override"]} -> {r}', c, True,
+            chk.counterexample(f'{c["extractor"]} extractor ({c.get("framing", "chunked")} framing): chunks {c["chunks"]} default {c["default"]} override {c["override"]} -> {r}', c, True,
                                role='wire:' + c['extractor'])
         if len(chk.samples) < 8: chk.samples.append({'case': c, 'native': r})
